@@ -28,7 +28,7 @@ ROWS = [
     ("circuitbreaker::breaker::error_ratio::ErrorRatioBreaker::new", "unwrap", ["call:get_rule_stat_sliding_window_bucket_count"], "as above", True),
     ("circuitbreaker::breaker::slow_request::SlowRtBreaker::new", "unwrap", ["call:get_rule_stat_sliding_window_bucket_count"], "as above", True),
     ("circuitbreaker::breaker::BreakerBase::from_open_to_half_open", "unwrap", ["call:upgrade", "call:EntryContext::entry"], "the Arc of the entry is held by EntryBuilder::build for the whole SlotChain::entry call in which try_pass runs", True),
-    ("base::entry::SentinelEntry::exit", "unwrap", ["field:SentinelEntry.exit_handlers"], "every closure the library passes to when_exit returns Ok(()) on all paths (rule C03.rollback/hook checks `returns: [Ok]`)", True),
+    ("base::entry::SentinelEntry::exit", "unwrap", ["call:Fn::call", "call:map_err", "param:self"], "every closure the library passes to when_exit returns Ok(()) on all paths (rule C03.rollback/hook checks `returns: [Ok]`)", True),
     # ---- slots
     ("base::slot_chain::SlotChain::entry", "unwrap", ["call:TokenResult::block_err"], "on the is_blocked() edge of the same verdict; block_err is Some exactly for Blocked", True),
     ("isolation::slot::AdaptiveSlot as core::base::slot_chain::RuleCheckSlot>::check", "unwrap", ["call:can_pass_check"], "every (false, r, s) returned by isolation::can_pass_check has r = Some and s = Some (rule C05.iso-report/tuple)", True),
